@@ -634,8 +634,11 @@ impl DBM {
         proof: &MisbehaviorProof,
     ) -> Result<(), SqliteError> {
         let tx = self.get_mut_connection().transaction().unwrap();
+        // The tower may have properly acknowledged this very appointment before (e.g. it is being sent again by a retrier
+        // that outlived the abandon and re-registration of the tower): the offending receipt, which is what the proof is
+        // about, takes the place of the previous one.
         tx.execute(
-            "INSERT INTO appointment_receipts (tower_id, locator, start_block, user_signature, tower_signature) 
+            "INSERT OR REPLACE INTO appointment_receipts (tower_id, locator, start_block, user_signature, tower_signature) 
                 VALUES (?1, ?2, ?3, ?4, ?5)",
             params![
                 tower_id.to_vec(),
